@@ -289,6 +289,26 @@ def conventions(rep, tier, timeout):
         go("pitching moment already accounts for both halves", a, b, dict(comm, wing_b_pts=bp, wing_widths=w, wing_chords=c, wing_sec_forces=F),
            dict(comm, wing_b_pts=bpf, wing_widths=ext_span_scalar(w), wing_chords=ext_nodes_scalar(c), wing_sec_forces=ext_panel_vec(F)),
            {"CM": lambda o: o["CM"], "M": lambda o: o["M"]})
+        # MomentCoefficient with two surfaces in every half/full combination against the all-full model: the normalising
+        # chord is the first surface's, whatever the other surfaces' symmetry flags are
+        if nyh == 2:
+            th_, tf_ = K.surface(nx, nyh, True, name="tail"), K.surface(nx, nyf, False, name="tail")
+            bpt = symarray("tail_b_pts", (nx - 1, nyh, 3))
+            for i in range(nx - 1):
+                bpt[i, nyh - 1, 1] = ZERO
+            bptf = np.concatenate([bpt, bpt[:, :-1][:, ::-1] * MIR], axis=1)
+            wt_, ct_, Ft = symarray("tail_widths", (nym,)), symarray("tail_chords", (nyh,)), symarray("tail_sec_forces", (nx - 1, nym, 3))
+            comm2 = {"cg": cg, "v": [var("v")], "rho": [var("rho")], "S_ref_total": [var("S_ref")], "wing_S_ref": [var("S_w")], "tail_S_ref": [var("S_t")]}
+            half_w = dict(wing_b_pts=bp, wing_widths=w, wing_chords=c, wing_sec_forces=F)
+            full_w = dict(wing_b_pts=bpf, wing_widths=ext_span_scalar(w), wing_chords=ext_nodes_scalar(c), wing_sec_forces=ext_panel_vec(F))
+            half_t = dict(tail_b_pts=bpt, tail_widths=wt_, tail_chords=ct_, tail_sec_forces=Ft)
+            full_t = dict(tail_b_pts=bptf, tail_widths=ext_span_scalar(wt_), tail_chords=ext_nodes_scalar(ct_), tail_sec_forces=ext_panel_vec(Ft))
+            b2 = SymComp("functionals.moment_coefficient", "MomentCoefficient", surfaces=[sf, tf_])
+            for lab2, ws, ts, iw, it in (("wing half, tail full", sh, tf_, half_w, full_t), ("wing full, tail half", sf, th_, full_w, half_t),
+                                         ("wing half, tail half", sh, th_, half_w, half_t)):
+                a2 = SymComp("functionals.moment_coefficient", "MomentCoefficient", surfaces=[ws, ts])
+                go("pitching moment of two surfaces (%s) equals the all-full model" % lab2, a2, b2, dict(comm2, **iw, **it), dict(comm2, **full_w, **full_t),
+                   {"CM": (lambda g: g[1:2], lambda o: o["CM"][1:2]), "M": (lambda g: g[1:2], lambda o: o["M"][1:2])})
         # structures: mass, cg, loads, fuel
         nodes = symarray("nodes", (nyh, 3))
         nodes[nyh - 1, 1] = ZERO
